@@ -52,12 +52,15 @@ fn main() {
         }
         "seq" => {
             let rt = runtime(seed);
-            let res = rt.block_on(seq::run(&input));
+            let (res, trace) = rt.block_on(seq::run(&input));
             for (m, s) in res {
                 out.push_str(&m);
                 out.push('\n');
                 side.push_str(&s);
                 side.push('\n');
+            }
+            if args.len() > 4 {
+                std::fs::write(&args[4], trace.join("\n") + "\n").unwrap();
             }
         }
         "push" => {
